@@ -2172,7 +2172,7 @@ fn run() {
     if l6.is_none() {
         rep.count("e2e:ipv6-loopback-unavailable");
     }
-    let n = params.n(3000, 200000);
+    let n = params.n(320, 200000);
     let only = params.get("only").and_then(|s| s.parse::<u64>().ok());
     // ---- the keepalive history runs next to the others for the whole budget
     let idle_stop = Arc::new(AtomicBool::new(false));
